@@ -205,7 +205,7 @@ def _source_flows(ctx, f: FuncInfo, init, self_array, depth=0, stack=()):
     def guarded(stmt, st):
         names = src_names(st)
         for t, pol in cfg.guards(stmt):
-            it = _inline(t, defs)
+            it = _inline(t, defs, module=f.module)
             if pol and (_ndarray_test(it, names) or _lazy_or_plain_test(it, names)):
                 return True
         return False
